@@ -178,9 +178,10 @@ def const_value(node: Optional[ast.AST]):
 
 
 class Repo:
-    def __init__(self, root: str = "/repo", package: str = "agilerl"):
+    def __init__(self, root: str = "/repo", package: str = "agilerl", overrides: Optional[Dict[str, str]] = None):
         self.root = root
         self.package = package
+        self.overrides = overrides or {}  # relative path -> source text (self-validation variants)
         self.mods: Dict[str, Mod] = {}
         self.n_files = 0
         self.n_functions = 0
@@ -204,8 +205,11 @@ class Repo:
                 if modname.endswith(".__init__"):
                     modname = modname[: -len(".__init__")]
                     is_pkg = True
-                with open(path, "r", encoding="utf-8") as fh:
-                    src = fh.read()
+                if rel in self.overrides:
+                    src = self.overrides[rel]
+                else:
+                    with open(path, "r", encoding="utf-8") as fh:
+                        src = fh.read()
                 try:
                     tree = ast.parse(src, filename=path)
                 except SyntaxError as e:
